@@ -27,6 +27,8 @@ def gen(rng, i, tier):
 def _gen(rng, i, tier):
     if rng.random() < 0.6:
         N = int(rng.integers(2, 120 if tier == "quick" else 2000))
+        if rng.random() < 0.03:
+            N = int(rng.integers(2900, 4200))   # (N+1)^2 beyond 2^23: block-wise / chunked evaluations show their seams
         dr = float(10 ** rng.uniform(-2, 0))
         f, _ = data(rng, np.arange(N + 1, dtype=float), kind=str(rng.choice(["noise", "smooth", "spike", "big"])))
         f[0] = f[-1] = 0.0
